@@ -256,7 +256,9 @@ def obligations(tier):
                   goals=("end", "active"), split=(("lower", tuple(range(-4, 3))),), budget_s=900))
     obs.append(Ob("C07.b[integer,linear,active,0..6]", "props.c07:h_integer", dict(scaling="linear", lower=0, upper=6, active=True), bounds=dict(lower=0, upper=6, active="1..5"),
                   goals=("end", "active"), budget_s=600))
-    for (lo, hi, size, lg, ci) in [(0.1, 1.0, 4, False, False), (1, 9, 5, False, True), (2.0, 2.0, 1, False, False), (0.0, 5.0, 6, False, True)]:
+    for (lo, hi, size, lg, ci) in [(0.1, 1.0, 4, False, False), (1, 9, 5, False, True), (2.0, 2.0, 1, False, False), (0.0, 5.0, 6, False, True),
+                                 # non-divisible integer grids: real grid points exactly on k + 1/2 (k even and odd, negative too)
+                                 (0, 5, 3, False, True), (0, 9, 7, False, True), (-3, 0, 3, False, True), (-3.0, 4.0, 5, False, False)]:
         obs.append(Ob("C07.c[finrange,%g..%g,size=%d%s%s]" % (lo, hi, size, ",log" if lg else "", ",cast_int" if ci else ""), "props.c07:h_finite",
                       dict(lower=lo, upper=hi, size=size, log_scale=lg, cast_int=ci), bounds=dict(lower=lo, upper=hi, size=size), goals=("end",), budget_s=900))
     for kind in ("randint", "lograndint", "qrandint"):
